@@ -144,7 +144,14 @@ func scenC12(k *K) {
 			write(d.w, peers[0].Node.Idx)
 		}
 		if k.C.Chance(1, 3) {
-			c12Twin(k, adv, peers, d.addr, d.w, d.r, honest)
+			td := d
+			for _, x := range dbs {
+				// a database nobody has written to yet: its first announcement names no predecessor
+				if len(LogValues(x.w)) == 0 && k.C.Chance(1, 2) {
+					td = x
+				}
+			}
+			c12Twin(k, adv, peers, td.addr, td.w, td.r, honest)
 		}
 	}
 	k.Settle(30*time.Second, 1500, nil)
@@ -225,9 +232,46 @@ func c12Twin(k *K, adv *Adversary, peers []*Peer, addr string, w, r iface.Store,
 	}
 	h["payload"] = pl[:i] + string(c) + pl[i+1:]
 	twin, _ := json.Marshal(msg)
-	route := []string{"topic", "direct", "direct-back-to-back"}[k.C.Intn(3)]
+	routeSet := []string{"topic", "direct", "direct-back-to-back"}
+	if len(LogValues(w)) == 1 {
+		// the announced head is the first entry of its log (it names no predecessor): a
+		// payload that is given up half-way, carrying links, may come right before it
+		routeSet = append(routeSet, "direct-links-then-real", "direct-links-then-real", "direct-links-then-real")
+	}
+	route := routeSet[k.C.Intn(len(routeSet))]
 	copies := k.C.Range(1, 2)
-	if route == "direct-back-to-back" {
+	if route == "direct-links-then-real" {
+		k.W.mu.Lock()
+		var keep []*Pend
+		for _, p := range k.W.pending {
+			if p.kind == pkMsg && p.src == wIdx && p.dst == rIdx && p.topic == addr {
+				k.W.tr("drop %s", p)
+				k.W.stat("drop")
+				continue
+			}
+			keep = append(keep, p)
+		}
+		k.W.pending = keep
+		k.W.mu.Unlock()
+		// same head with links added and a field of the wrong type behind them (decoding stops
+		// there), or the linked head under an address R does not hold
+		var lm map[string]interface{}
+		_ = json.Unmarshal(real, &lm)
+		lh, _ := lm["heads"].([]interface{})[0].(map[string]interface{})
+		lh["next"] = []interface{}{lh["hash"]}
+		lh["refs"] = []interface{}{lh["hash"]}
+		if k.C.Chance(1, 2) {
+			lh["v"] = "2"
+		} else {
+			lm["address"] = "/orbitdb/bafyreib2u7nzfrzwkdtkgrzifidkmwqzqzmbeo3ebvcxhpqgtyoqxkjzja/nobody-has-this"
+		}
+		linked, _ := json.Marshal(lm)
+		pair := PairTopic(adv.Node, peers[1].Node)
+		for j := 0; j < copies; j++ {
+			adv.PublishRaw(pair, linked)
+		}
+		adv.PublishRaw(pair, real)
+	} else if route == "direct-back-to-back" {
 		// W's own announcement is lost; the hostile peer relays the genuine bytes on its direct
 		// channel with R, with a broken payload right behind them: two payloads waiting on
 		// the same channel at once
